@@ -393,3 +393,58 @@ func runECCRegister() {
 			}
 		})
 }
+
+// runECCHistories: call sequences. ErrorCorrection_EncodeECC200 is a pure function of its
+// arguments; whatever happened before - another size, or a REFUSED request (a SymbolInfo whose
+// error-codeword count has no generator polynomial, as the library's own unit test passes) - must
+// not change its answer. For every ordered pair of sizes: [first] [refused request] [second], and
+// [first] [second], each result compared with the reference.
+func runECCHistories() {
+	type job struct{ a, b int }
+	var jobs []job
+	for a := range dm.Symbols {
+		for b := range dm.Symbols {
+			jobs = append(jobs, job{a, b})
+		}
+	}
+	mk := func(s dm.Symbol, salt int) []byte {
+		d := make([]byte, s.DataCW)
+		for i := range d {
+			d[i] = byte(i*i*7 + i*3 + salt)
+		}
+		return d
+	}
+	refuse := func() string {
+		var err error
+		pm, _ := mc.Guard(func() {
+			_, err = encoder.ErrorCorrection_EncodeECC200([]byte{1}, encoder.NewSymbolInfo(false, 1, 1, 10, 10, 1))
+		})
+		if pm != "" {
+			return "panic " + pm
+		}
+		if err == nil {
+			return "no error"
+		}
+		return ""
+	}
+	chk.Range("ErrorCorrection_EncodeECC200 call histories: all 30x30 ordered pairs of sizes, [first][second] and [first][a refused request: 1 error codeword][second]: every result equals the reference", len(jobs),
+		func(i int) string { return fmt.Sprint(dm.Symbols[jobs[i].a], " then ", dm.Symbols[jobs[i].b]) },
+		func(l *mc.Local, i int) {
+			a, b := dm.Symbols[jobs[i].a], dm.Symbols[jobs[i].b]
+			for _, withRefusal := range []bool{false, true} {
+				name := fmt.Sprintf("history [%v]%s[%v]", a, map[bool]string{false: "", true: "[refused request]"}[withRefusal], b)
+				if !eccCompare(l, a, name+" first call", mk(a, 1), rcase{Sub: "ecch", Rows: a.Rows, Cols: a.Cols, Vec: name, Index: jobs[i].a, N: jobs[i].b}, false) {
+					return
+				}
+				if withRefusal {
+					if r := refuse(); r != "" {
+						chk.Violation("C08/ecc/refusal", "ErrorCorrection_EncodeECC200 with a SymbolInfo of 1 error codeword: "+r, rcase{Sub: "ecch", Vec: name})
+						return
+					}
+				}
+				if !eccCompare(l, b, name+" last call", mk(b, 2), rcase{Sub: "ecch", Rows: b.Rows, Cols: b.Cols, Vec: name, Index: jobs[i].a, N: jobs[i].b}, true) {
+					return
+				}
+			}
+		})
+}
